@@ -156,3 +156,13 @@ C("C18", "exploration",
   "every solution is a continuous chain from source to receiver, joints on boundaries, n sin(theta) conserved or mirrored at each joint, "
   "azimuth continuous, sums of sub-path lengths/times, Fresnel factors == product of the joint coefficients recomputed from the vectors.",
   "layers are constructed with neighbour-consistent index_above/index_below; exponential split restricted to class W", "DESIGN.md §4 C18")
+C("C03", "exploration",
+  "exhaustive finite lattice (ray solutions of all tracers x signals x polarizations x interpolation steps) against a longhand-DFT reconstruction and an independent line integral of the attenuation",
+  "12 geometries covering all four tracers (direct, refracted, surface-reflected incl. total internal reflection, exactly and almost vertical, "
+  "Greenland ice, uniform ice with two reflections, two layered stacks) x N in {64,65} x 4 input signals x 6 polarization vectors (incl. non-unit) x "
+  "5 attenuation-interpolation settings: output grids == input grid + tof exactly; input untouched; output == Re IDFT(A(|f|) r (pol.u) DFT(pad x)) to "
+  "1e-10 (within the interpolation bound A(f 10^-s) - A(f 10^s) otherwise); additivity and homogeneity in signal and polarization; attenuation in "
+  "(0,1], even in f, non-increasing, equal to an independent quadrature of ds/L_att along the RK4-marched ray / straight legs; Fresnel "
+  "coefficients equal the standard formulas recomputed from the geometry, |r| <= 1; output energy <= |pol|^2 input energy; returned vectors "
+  "unit, orthogonal, transverse. Open finding K2 (exactly vertical rays).",
+  "layered-stack transmissions may exceed amplitude 1 (power flux conserved): passivity not demanded there", "DESIGN.md §4 C03")
